@@ -126,6 +126,132 @@ class Cli:
                     out.append((b, bi, t, p))
         return out
 
+    # ------------------------------------------------------------------ the formatter / its configuration
+    CL = re.compile(r'Clone>::clone$|Clone::clone$|Deref>::deref$|Deref::deref$|::borrow$|AsRef<.*>::as_ref$')
+
+    def option_mapping(self):
+        """the function that maps the CLI style options to a library Config (found by role: takes &StyleArgs, returns Config)"""
+        out = [b for b in self.fns() if b.def_kind != 'Closure' and b.locals[0]['ty'].get('id') == 'typstyle_core::config::Config'
+               and b.arg_count == 1 and 'StyleArgs' in b.locals[1]['ty']['s']]
+        if len(out) != 1:
+            raise AnchorMissing('option mapping (fn(&StyleArgs) -> Config): found %s' % [b.short for b in out])
+        return out[0]
+
+    def config_ok(self, b, operand, depth=0):
+        """(ok, why): the Config value is the option mapping applied to args.style - directly, kept in a local and cloned, handed in as a parameter by
+        callers for which the same holds, or returned by a helper of the CLI for which it holds"""
+        v = self.view(b)
+        tc = self.option_mapping()
+        srcs = v.pv.through(v.pv.origins_operand(operand), self.CL)
+        if not srcs or depth > 4:
+            return False, 'no provenance'
+        for o in srcs:
+            o = strip_casts(o)
+            if o[0] == 'call' and not o[2]:
+                t = v.pv.call_term(o)
+                if resolved_id(t) == tc.id:
+                    d = v.describe_operand(t['args'][0])
+                    if d.endswith('field:typstyle::cli::CliArguments.style') or d.endswith('CliArguments.style') or self._is_style_param(b, v, t['args'][0], depth):
+                        continue
+                    return False, 'the option mapping is applied to %s' % d
+                cb = self.w.bodies.get(resolved_id(t))
+                if cb is not None and cb.crate is self.w.cli and cb.locals[0]['ty'].get('id') == 'typstyle_core::config::Config':
+                    ok, why = self._returns_ok(cb, self.config_ok, depth)
+                    if ok:
+                        continue
+                    return False, '%s returns %s' % (cb.short, why)
+                return False, 'Config comes from %s' % (resolved_path(t) or callee_path(t))
+            if o[0] == 'param' and not o[2]:
+                ok, why = self._callers_ok(b, o[1], self.config_ok, depth)
+                if ok:
+                    continue
+                return False, why
+            return False, 'Config has provenance %s' % v.describe(o)
+        return True, 'the option mapping of args.style'
+
+    def _is_style_param(self, b, v, operand, depth):
+        """operand is a &StyleArgs parameter that every caller fills with args.style"""
+        for o in v.pv.through(v.pv.origins_operand(operand), self.CL):
+            o = strip_casts(o)
+            if o[0] == 'param':
+                steps = v.describe(o)
+                if 'CliArguments.style' in steps:
+                    continue
+                if 'StyleArgs' in b.locals[o[1]]['ty']['s'] and not o[2]:
+                    ok = True
+                    for (cb, bi, t) in self.callers(b.id):
+                        cv = self.view(cb)
+                        d = cv.describe_operand(t['args'][o[1] - 1])
+                        if 'CliArguments.style' not in d:
+                            ok = False
+                    if ok and self.callers(b.id):
+                        continue
+                return False
+            return False
+        return True
+
+    def formatter_ok(self, b, operand, depth=0):
+        """(ok, why): the Typstyle value is Typstyle::new(<config_ok>) - directly, cloned, a parameter, or returned by a CLI helper"""
+        v = self.view(b)
+        srcs = v.pv.through(v.pv.origins_operand(operand), self.CL)
+        if not srcs or depth > 4:
+            return False, 'no provenance'
+        for o in srcs:
+            o = strip_casts(o)
+            if o[0] == 'call' and not o[2]:
+                t = v.pv.call_term(o)
+                if (resolved_path(t) or '').endswith('Typstyle::new'):
+                    ok, why = self.config_ok(b, t['args'][0], depth + 1)
+                    if ok:
+                        continue
+                    return False, why
+                cb = self.w.bodies.get(resolved_id(t))
+                if cb is not None and cb.crate is self.w.cli and 'Typstyle' in cb.locals[0]['ty']['s']:
+                    ok, why = self._returns_ok(cb, self.formatter_ok, depth)
+                    if ok:
+                        continue
+                    return False, '%s returns a formatter with %s' % (cb.short, why)
+                return False, 'formatter comes from %s' % (resolved_path(t) or callee_path(t))
+            if o[0] == 'param' and not o[2]:
+                ok, why = self._callers_ok(b, o[1], self.formatter_ok, depth)
+                if ok:
+                    continue
+                return False, why
+            return False, 'formatter has provenance %s' % v.describe(o)
+        return True, 'Typstyle::new(option mapping of args.style)'
+
+    def _returns_ok(self, cb, judge, depth):
+        cv = self.view(cb)
+        ok_any = False
+        for bi, blk in enumerate(cb.blocks):
+            if blk['cleanup']:
+                continue
+            for st in blk['stmts']:
+                if st['s'] == 'assign' and st['p']['l'] == 0 and not st['p']['proj'] and st['rv']['r'] == 'use':
+                    ok, why = judge(cb, st['rv']['op'], depth + 1)
+                    if not ok:
+                        return False, why
+                    ok_any = True
+            t = blk['term']
+            if t['t'] == 'call' and t['dest']['l'] == 0 and not t['dest']['proj']:
+                ok, why = judge(cb, {'o': 'copy', 'p': {'l': 0, 'proj': []}}, depth + 1)
+                if not ok:
+                    return False, why
+                ok_any = True
+        return (ok_any, 'no return value found' if not ok_any else '')
+
+    def _callers_ok(self, b, pidx, judge, depth):
+        callers = self.callers(b.id)
+        if not callers or b.def_kind == 'Closure':
+            return False, 'parameter of %s without call sites to justify it' % b.short
+        for (cb, bi, t) in callers:
+            if pidx - 1 >= len(t['args']):
+                return False, 'arity mismatch'
+            ok, why = judge(cb, t['args'][pidx - 1], depth + 1)
+            if not ok:
+                return False, 'caller %s: %s' % (cb.short, why)
+        return True, ''
+
     # ------------------------------------------------------------------ formatted-text provenance
     def classify_text(self, b, origins, depth=0):
         """classify the provenance of a text value: set of tags from
